@@ -217,7 +217,7 @@ func (c02) Eval(c *Chooser, env *Env) *Outcome {
 		desc += ", second call on the same Linter instance"
 	case 6:
 		// another moment: the wall clock of the run differs by some minutes / hours / days
-		ro.EpochOffset = []int64{60, 7 * 60, 49 * 60, 3600 * 5, 86400 * 3, 86400*200 + 1234}[c.Int("world.epoch", 6)]
+		ro.EpochOffset = []int64{60, 7 * 60, 25 * 60, 37 * 60, 40 * 60, 49 * 60, 3600*5 + 38*60, 86400 * 3, 86400*200 + 1234}[c.Int("world.epoch", 9)]
 		desc += fmt.Sprintf(", wall clock %d s later", ro.EpochOffset)
 	case 5:
 		w2.GoMaxProcs = []int{1, 2, 4, 16, 64}[c.Int("world.gmp2", 5)]
